@@ -18,9 +18,9 @@ Tokens(line, i) ==
     [] line.t = "R" -> << [k |-> "HR"], [k |-> "NL"] >>
     [] line.t = "B" -> << [k |-> "NL"] >>
 
-RECURSIVE FeedDoc(_, _, _, _)
-FeedDoc(st, d, i, Dev) == IF i > Len(d) THEN st ELSE FeedDoc(Feed(st, Tokens(d[i], i), 1, Dev), d, i + 1, Dev)
-MachineTree(d, Dev) == Finish(FeedDoc(InitState, d, 1, Dev), Dev).root
+RECURSIVE FeedDoc(_, _, _)
+FeedDoc(st, d, i) == IF i > Len(d) THEN st ELSE FeedDoc(Feed(st, Tokens(d[i], i), 1), d, i + 1)
+MachineTree(d, Dev) == Finish(FeedDoc(InitState(Dev), d, 1)).root
 
 Plain(d) == [i \in 1..Len(d) |-> [x \in (DOMAIN d[i]) \ {"f"} |-> d[i][x]]]
 MachineRelations(d, Dev) == TreeRelations(MachineTree(d, Dev), d, W)
